@@ -28,6 +28,7 @@ def sorted_by_precedence(expr) -> bool:
 
 
 def run(ctx):
+    ctx.rule("R03.q", "a change of a Parameter attribute (objects, bounds, ...) is announced with the assigned value: in Parameter.__setattr__ the third argument of _trigger_event is the `value` parameter itself, never a read-back through a property", floor=1)
     ctx.rule("R03.a", "every watcher dispatch in Parameter.__set__ is preceded on every path by the value store (or the constant-identity case); "
                       "the event carries old = the value read from the same storage just before the store and new = the stored binding; "
                       "Parameter.__setattr__ stores the slot before _trigger_event", floor=3)
@@ -311,6 +312,8 @@ def run(ctx):
     else:
         ctx.ok("R03.n", ch, ch.node, "4/4: changed iff the comparator says different")
 
+    from checks.shared import slot_event_carries_assigned_value
+    slot_event_carries_assigned_value(ctx, "R03.q")
     from checks import register_model
     register_model.report(ctx, "R03.p")
 
